@@ -376,7 +376,7 @@ PROPS["C03"] = {
     "manifest": {
         "technique": "runtime monitoring: catch_unwind call wrappers over an API storm and over every other monitor's workload in an overflow-checking, debug-asserting build; broken calls keyed by panic location",
         "text": "Every call the harness makes into the crate runs under catch_unwind in a build with integer-overflow checks and debug assertions; panics and internal-assertion errors are recorded with their source location. C03 drives a dedicated storm (arbitrary strings into every parser, hostile finite arguments and random option combinations into every public method, pathological provider tables) and additionally harvests the records of all other monitors' workloads. A clean run means none of the calls made broke; calls not made are not covered.",
-        "note": "The FFI layer's calls are exercised by C19's workload; memory-safety tooling (Miri) is a separate leg of C19/C20 where unsafe code is reached.",
+        "note": "The FFI layer's calls are exercised by C19's workload (harvested here in the chk build); no Rust-side memory-safety tool is used because no unsafe code lies on these paths (DESIGN.md 0.2); the C++ bindings run under clang ASan+UBSan in C19's thorough tier.",
     },
 }
 
@@ -392,7 +392,7 @@ PROPS["C19"] = {
              "functions paired is recorded (functions_paired_in_this_shard; all scenarios run in every shard)"),
     "assumptions": ["the core method is the oracle (its own correctness is the subject of the other properties)",
                     "Now::* wrappers read the system clock and are not paired; PlainDate::to_zoned_date_time of src/builtins/compiled/date.rs is not compiled into the crate",
-                    "the generated C/C++ headers are not exercised, only the extern functions' Rust bodies they bind to"],
+                    "the quick tier calls the extern functions' Rust bodies; the generated C++ headers and the C ABI are exercised by the thorough tier's C++ leg (a subset of the functions: constructors, accessors, arithmetic, rounding, formatting of the seven value types)"],
     "manifest": {
         "technique": "runtime monitoring: differential pairing of every wrapper call with the core call it stands for (value through accessors, or error kind), two builds",
         "text": "Each convenience-API method and each FFI function is executed next to the core method it forwards to, with the same generated receiver, arguments and option variants, and the two outcomes must agree. Accessors are compared on values whose fields differ, so a wrapper wired to a neighbouring field shows. The evidence lists how many distinct functions were paired.",
